@@ -340,9 +340,12 @@ package core
 //@   ensures core.scannersStack == old(core.scannersStack) && StackInv(core.scannersStack)
 
 //@ func (*JApiCore).isScanningFinished
-//@   trusted
+//@   tag C01 C02 C08
 //@   requires core != nil && StackInv(core.scannersStack)
+//@   modifies core.scanner, core.scannersStack.stack, core.scannersStack.hashes, core.scannersStack.uniqueFiles, mapof(core.scannersStack.uniqueFiles)
 //@   ensures core.scannersStack == old(core.scannersStack) && StackInv(core.scannersStack)
+//@   ensures [C08] ret <==> old(len(core.scannersStack.stack)) == 0
+//@   ensures [C08] !ret ==> core.scanner == old(core.scannersStack.stack[len(core.scannersStack.stack)-1].scanner) && len(core.scannersStack.stack) == old(len(core.scannersStack.stack)) - 1
 
 //@ func (*JApiCore).scanProject$1
 //@   inline
